@@ -15,6 +15,9 @@ PARALLEL = 4
 RES = 50e-9
 UNIT = {0: [1, 0, 1], 1: [0, 1, 1], 2: [-1, 0, 1], 3: [0, -1, 1]}
 PYTH = [[3, 4, 5], [4, 3, 5], [-3, 4, 5], [3, -4, 5], [5, 12, 13], [-12, 5, 13], [12, -5, 13], [-4, -3, 5], [8, 15, 17], [-15, 8, 17]]
+# sign of the wave-vector component k = atan2(pi, pr) / L: both signs are forced into every tier (see _case)
+UNIT_POS, UNIT_NEG = [[0, 1, 1], [-1, 0, 1]], [[0, -1, 1]]
+PYTH_POS, PYTH_NEG = [p for p in PYTH if p[1] > 0], [p for p in PYTH if p[1] < 0]
 
 
 def model_check(ctx):
@@ -35,16 +38,21 @@ def model_check(ctx):
     ]
 
 
-def _case(rng, cid, mode, naxes_tiled, walls, matmode, T):
+def _case(rng, cid, mode, naxes_tiled, walls, matmode, T, neg=False):
+    """neg: the first tiled axis is a Bloch axis with a NEGATIVE wave-vector component (else a positive one)"""
     axes = [0, 1, 2]
     rng.shuffle(axes)
     tiled = sorted(axes[:naxes_tiled])
+    forced = tiled[0]
     N, M, kinds, phi = [0, 0, 0], [1, 1, 1], ["", "", ""], [[1, 0, 1]] * 3
     for a in range(3):
         if a in tiled:
             N[a] = rng.choice([2, 3])
             M[a] = rng.choice([2, 3])
-            if rng.random() < 0.75:
+            if a == forced:
+                kinds[a] = "bloch"
+                phi[a] = rng.choice((UNIT_NEG if neg else UNIT_POS) if mode == "exact" else (PYTH_NEG if neg else PYTH_POS))
+            elif rng.random() < 0.6:
                 kinds[a] = "bloch"
                 phi[a] = UNIT[rng.choice([1, 2, 3, 1, 3])] if mode == "exact" else rng.choice(PYTH)
             else:
@@ -72,11 +80,12 @@ def gen_cases(ctx):
             for nt, walls, mat in [(1, ["pec", "pmc"], "arr"), (1, ["periodic"], "arr"), (2, ["pec", "periodic"], "arr"), (1, ["pec", "pmc", "periodic"], "slab"),
                                    (2, ["pmc", "periodic"], "slab"), (3, ["pec"], "arr")]:
                 n += 1
-                yield _case(rng, f"{mode}-{nt}ax-{mat}-{n}", mode, nt, walls, mat, 3 if mode == "exact" else 4)
+                neg = n % 2 == 0
+                yield _case(rng, f"{mode}-{nt}ax-{mat}-{'kneg' if neg else 'kpos'}-{n}", mode, nt, walls, mat, 3 if mode == "exact" else 4, neg)
         n += 1
-        yield _case(rng, f"float-1ax-pml-{n}", "float", 1, ["pml"], "arr", 4)
+        yield _case(rng, f"float-1ax-pml-kpos-{n}", "float", 1, ["pml"], "arr", 4, False)
         n += 1
-        yield _case(rng, f"float-2ax-pml-{n}", "float", 2, ["pml"], "slab", 3)
+        yield _case(rng, f"float-2ax-pml-kneg-{n}", "float", 2, ["pml"], "slab", 3, True)
 
 
 def _scene(case, big):
@@ -121,8 +130,12 @@ def observe(case):
     rng = np.random.default_rng(case["seed"])
     so, sa, scfg = RS.build(_scene(case, False))
     bo, ba, bcfg = RS.build(_scene(case, True))
-    cplx = jnp.iscomplexobj(sa.fields.E)
-    assert cplx == jnp.iscomplexobj(ba.fields.E)
+    # The fields are complex whenever a requested phase is not 1, whatever dtype the library allocated: a Bloch
+    # boundary with exp(i k L) != 1 that reports needs_complex_fields = False (real container, no ghost phase) is the
+    # property being violated by the code, not a harness error - the run then shows up as a tile violation.
+    need_cplx = any(list(p) != [1, 0, 1] for p in case["phi"])
+    lib_cplx = bool(jnp.iscomplexobj(sa.fields.E)) and bool(jnp.iscomplexobj(ba.fields.E))
+    cplx = need_cplx or lib_cplx
     assert tuple(ba.fields.E.shape[1:]) == tuple(N[a] * M[a] for a in range(3))
     shp = (3, *N)
     # ---- materials of the N-cell scene
@@ -163,7 +176,7 @@ def observe(case):
         return out
 
     E0, H0 = field0(), field0()
-    dt = sa.fields.E.dtype
+    dt = jnp.complex128 if cplx else sa.fields.E.dtype
     sa = sa.aset("fields->E", jnp.asarray(E0, dtype=dt)).aset("fields->H", jnp.asarray(H0, dtype=dt))
     ba = ba.aset("fields->E", jnp.asarray(tile(E0), dtype=dt)).aset("fields->H", jnp.asarray(tile(H0), dtype=dt))
     sruns = [(0, sa)] + list(RS.step_forward(sa, so, scfg, T))
@@ -194,7 +207,8 @@ def observe(case):
     encS, _ = RS.enc_real(mS, mscale)
     encB, _ = RS.enc_real(mB, mscale)
     return {"id": case["id"], "N": N, "M": M, "phi": case["phi"], "tol": 0 if exact else 10, "devtol": 10, "exact": exact, "mcomp": mcomp,
-            "mS": encS, "mB": encB, "steps": steps, "kinds": "/".join(case["kinds"]), "complex": bool(cplx)}
+            "mS": encS, "mB": encB, "steps": steps, "kinds": "/".join(case["kinds"]), "complex": bool(cplx), "library_allocated_complex": lib_cplx,
+            "kvec_signs": "".join("+" if p[1] > 0 or (p[1] == 0 and p[0] < 0) else "-" if p[1] < 0 else "0" for p in case["phi"])}
 
 
 def classify(rec, verdict):
